@@ -3,7 +3,7 @@
    buildCDNRequestPlan / largestCDNValidLimit and the counter expression of cdn.decrypt are
    regenerated from the source on every run (Gen/CdnPlan.v). *)
 From Coq Require Import ZArith List Bool.
-From TD Require Import Gen.CdnPlan Model.Cdn Proof.Cdn.
+From TD Require Import Gen.CdnPlan Model.Cdn Proof.Cdn Proof.CdnQueue.
 Import ListNotations.
 Open Scope Z_scope.
 
@@ -114,6 +114,24 @@ Proof.
   exists 0, 4, [1; 2], [1; 2]. split; [cbn; Lia.lia|]. split; [exact truncation_witness|cbn; Lia.lia].
 Qed.
 Print Assumptions C34_complete_refuted.
+
+(* The verifier's hash queue (WithVerify(true)): against a server that hands out the consecutive
+   hash windows W of a file in non-empty batches (and nothing new at the end), a verifier seeded
+   with the first k windows serves EVERY window of W exactly once, in offset order, without
+   gaps, and then reports the end -- for ALL window lists, batch sizes and k. *)
+Theorem C34_queue :
+  forall (W : list hwin), contig 0 W ->
+  forall (server : Z -> list hwin),
+    (forall done rest, W = done ++ rest -> rest <> [] ->
+       exists b more, b <> [] /\ rest = b ++ more /\ server (end_of 0 done) = b) ->
+    (server (end_of 0 W) = [] \/
+     exists b, server (end_of 0 W) = b /\ b <> [] /\
+               let l := List.last (sort_off b) {| w_off := 0; w_limit := 0; w_hash := [] |} in
+               w_off l + w_limit l = end_of 0 W) ->
+    forall k fuel, (length W + 1 <= fuel)%nat ->
+      v_drain server fuel (new_verifier (firstn k W)) = (W, true).
+Proof. exact verifier_serves_all. Qed.
+Print Assumptions C34_queue.
 
 (* non-vacuity of the plan theorem's hypotheses and a plan across two MiB boundaries *)
 Example C34_plan_example :
